@@ -190,6 +190,14 @@ func (a *Analyzer) val(s *State, ctx int, v ssa.Value) AV {
 			if i, ok := constant.Int64Val(c.Value); ok {
 				return AInt{konst(i)}
 			}
+			// a constant beyond int64 (e.g. the maximal uint): some value >= 2^62
+			if constant.Sign(c.Value) > 0 && isIntType(c.Type()) {
+				t := termFor("bigconst:"+c.Value.ExactString(), "big("+c.Value.ExactString()+")")
+				if lb := konst(int64(1) << 62).sub(tvar(t)); !s.provesLE(lb) {
+					s.addLE(lb)
+				}
+				return AInt{tvar(t)}
+			}
 			return AOther{}
 		case constant.String:
 			str := constant.StringVal(c.Value)
